@@ -42,12 +42,12 @@ theorem C05_handler_order : safeSign (handlerSignProg.map parseH) = true := by d
 
 /-- (R) the sighash types in the Go source are SIGHASH_ALL (p2wsh) and SIGHASH_DEFAULT (taproot), the two
 that commit to every input and every output; the signer matches inputs by the stored outpoint over
-`batch.BatchTX` (no `break`: last match), gates MuSig2 on `VersionTaprootEnabled` and signs `batch.BatchTX`
+`batch.BatchTX` (the LAST matching input wins – forward loop without `break`, or backward loop stopping at the first hit), gates MuSig2 on `VersionTaprootEnabled` and signs `batch.BatchTX`
 with `batch.PreviousOutputs`. -/
 theorem C05_signer_source_shape :
     htP2wsh = 1 ∧ htTaproot = 0 ∧
     signerAccountLookup = "acctDiff.AccountKey" ∧
-    signerInputMatch = "acct.OutPoint == in.PreviousOutPoint" ∧ signerInputLoop = "no-break" ∧
+    signerInputMatch = "acct.OutPoint == in.PreviousOutPoint" ∧ signerInputPick = "last" ∧
     signerVersionGate = "acct.Version >= account.VersionTaprootEnabled" ∧
     signerRawTx = "batch.BatchTX" ∧ signerMuSig2Tx = "batch.BatchTX" ∧
     signerMuSig2PrevOuts = "batch.PreviousOutputs" := by decide
@@ -70,10 +70,10 @@ theorem C05_storer_modifier_shape :
        ("VersionModifier", ["account.Version = arg"])] ∧
     storerRecreatedModifiers =
       ["account.StateModifier(account.StatePendingBatch)",
-       "account.OutPointModifier(wire.OutPoint{ Index: uint32(diff.OutpointIndex), Hash: batch.BatchTX.TxHash(), })",
+       "account.OutPointModifier(wire.OutPoint{ Hash: batch.BatchTX.TxHash(), Index: uint32(diff.OutpointIndex), })",
        "account.IncrementBatchKey()"] ∧
     storerRecreatedConditional =
-      [("batch.Version.SupportsAccountExtension() && 0 != diff.NewExpiry", ["account.ExpiryModifier(diff.NewExpiry)"]),
+      [("0 != diff.NewExpiry && batch.Version.SupportsAccountExtension()", ["account.ExpiryModifier(diff.NewExpiry)"]),
        ("batch.Version.SupportsAccountTaprootUpgrade() && diff.NewVersion > acct.Version",
         ["account.VersionModifier(diff.NewVersion)"])] ∧
     storerClosedModifiers = ["account.StateModifier(account.StatePendingClosed)"] ∧
